@@ -149,7 +149,7 @@ pub fn run(ctx: &Ctx) -> i32 {
                     // behaviour of the two generated parsers on the saved request
                     let mut batch = lab::build_batch(&[(g.clone(), print(&g).text), (v2.clone(), print(&v2).text)], &LabOpts::default());
                     if batch.ready(0) && batch.ready(1) {
-                        let key = |rep: &lab::Reply| (format!("{:?}", rep.status).split('(').next().unwrap_or("").to_string(), rep.tree.as_ref().map(|t| t.dump()), rep.diags.clone(), rep.log.iter().filter(|e| matches!(e, lab::Event::Action(..))).count());
+                        let key = |rep: &lab::Reply| (format!("{:?}", rep.status).split('(').next().unwrap_or("").to_string(), rep.tree.as_ref().map(|t| t.dump()), rep.diags.clone(), rep.log.iter().filter(|e| matches!(e, lab::Event::Action(..))).count(), rep.log.iter().filter(|e| matches!(e, lab::Event::Created(..))).count(), rep.log.iter().filter(|e| matches!(e, lab::Event::Deleted(..))).count());
                         let mut r0 = req.clone();
                         r0.gi = 0;
                         let mut r1 = req.clone();
@@ -308,14 +308,14 @@ pub fn run(ctx: &Ctx) -> i32 {
                     let reqs: Vec<Req> = standard_requests(g, start, &mut d, ctx.tier.pick(40, 120), 20);
                     for r0 in reqs {
                         let base_rep = batch.run(&r0);
-                        let key0 = (format!("{:?}", base_rep.status).split('(').next().unwrap_or("").to_string(), base_rep.tree.as_ref().map(|t| t.dump()), base_rep.diags.clone(), base_rep.log.iter().filter(|e| matches!(e, lab::Event::Action(..))).count());
+                        let key0 = (format!("{:?}", base_rep.status).split('(').next().unwrap_or("").to_string(), base_rep.tree.as_ref().map(|t| t.dump()), base_rep.diags.clone(), base_rep.log.iter().filter(|e| matches!(e, lab::Event::Action(..))).count(), base_rep.log.iter().filter(|e| matches!(e, lab::Event::Created(..))).count(), base_rep.log.iter().filter(|e| matches!(e, lab::Event::Deleted(..))).count());
                         for k in start + 1..start + len {
                             let mut r = r0.clone();
                             r.gi = k;
                             let rep = batch.run(&r);
                             ev.eval();
                             ev.label("behaviour_pairs");
-                            let key = (format!("{:?}", rep.status).split('(').next().unwrap_or("").to_string(), rep.tree.as_ref().map(|t| t.dump()), rep.diags.clone(), rep.log.iter().filter(|e| matches!(e, lab::Event::Action(..))).count());
+                            let key = (format!("{:?}", rep.status).split('(').next().unwrap_or("").to_string(), rep.tree.as_ref().map(|t| t.dump()), rep.diags.clone(), rep.log.iter().filter(|e| matches!(e, lab::Event::Action(..))).count(), rep.log.iter().filter(|e| matches!(e, lab::Event::Created(..))).count(), rep.log.iter().filter(|e| matches!(e, lab::Event::Deleted(..))).count());
                             if key != key0 {
                                 vs.push(Violation {
                                     sig: "behaviour-differs".into(),
